@@ -285,8 +285,13 @@ func (g *Gen) parScenarios(p *ps.Program) []*ps.Scenario {
 		}
 		if s.End {
 			sc := base()
-			sc.SlEnd[s.S] = failKind(s.EndErr)
+			sc.SlEnd[s.S] = "panic"
 			out = append(out, sc)
+			if s.EndErr {
+				sc := base()
+				sc.SlEnd[s.S] = "err"
+				out = append(out, sc)
+			}
 		}
 	}
 	for _, m := range p.Maps {
@@ -304,8 +309,13 @@ func (g *Gen) parScenarios(p *ps.Program) []*ps.Scenario {
 		}
 		if m.End {
 			sc := base()
-			sc.MpEnd[m.M] = failKind(m.EndErr)
+			sc.MpEnd[m.M] = "panic"
 			out = append(out, sc)
+			if m.EndErr {
+				sc := base()
+				sc.MpEnd[m.M] = "err"
+				out = append(out, sc)
+			}
 		}
 	}
 	// random combinations
